@@ -173,7 +173,24 @@ impl TransportVisitor for V {
         LCG.with(|l| l.set(0x5eed_0000 + self.events as u64));
         let q = which.queue();
         let qs = which.qsize();
-        let co: CoRc = CoDevice::new(w.dev.clone(), cosim::zero_responder(which.kind()));
+        let co: CoRc = if which == Which::Sound {
+            // The sound device answers control requests with success (so that a stream can be
+            // set up) and holds event buffers and PCM transfers until told otherwise.
+            CoDevice::new(
+                w.dev.clone(),
+                Box::new(|q, chain, req| {
+                    if q == 0 {
+                        let data = cosim::honest_response(Kind::Sound, q, req, chain.writable_len());
+                        let n = data.len() as u32;
+                        cosim::Action::Complete(data, n)
+                    } else {
+                        cosim::Action::Hold
+                    }
+                }),
+            )
+        } else {
+            CoDevice::new(w.dev.clone(), cosim::zero_responder(which.kind()))
+        };
         co.borrow_mut().spin_horizon = 6;
         cosim::install(&co);
         let r = crate::util::catch(|| match which {
@@ -202,6 +219,7 @@ impl TransportVisitor for V {
             co.borrow_mut().service(q);
         }
         let mut pending: VecDeque<Ev> = VecDeque::new();
+        let mut xfer_done = false;
         let mut seq = 0u32;
         let mut delivered = 0usize;
         while delivered < self.events && !crate::engine::chooser::has_violation() {
@@ -258,6 +276,41 @@ impl TransportVisitor for V {
                 co.borrow_mut().complete_held(q, j, &bytes, used_len);
                 pending.push_back(Ev { token, bytes, seq, undecodable, overstated });
                 delivered += 1;
+            }
+            // Once per run, with events waiting to be polled: a blocking PCM transfer which the
+            // device serves while the driver busy-waits. The events are the caller's to take
+            // afterwards, every one of them.
+            if which == Which::Sound && !xfer_done && !pending.is_empty() {
+                xfer_done = true;
+                if let Drv::Sound(s) = &mut d {
+                    use virtio_drivers::device::sound::{PcmFeatures, PcmFormat, PcmRate};
+                    let _ = s.output_streams();
+                    let _ = s.pcm_set_params(0, 8, 4, PcmFeatures::empty(), 1, PcmFormat::U8, PcmRate::Rate8000);
+                    let _ = s.pcm_prepare(0);
+                    let _ = s.pcm_start(0);
+                    {
+                        let c2 = co.clone();
+                        let mut n = 0u32;
+                        crate::mmio::set_spin_handler(Some(Box::new(move |_site| {
+                            n += 1;
+                            let mut c = c2.borrow_mut();
+                            if n % 2 == 0 && c.held_count(2) > 0 {
+                                let mut done = [0u8; 8];
+                                done[0..4].copy_from_slice(&0x8000u32.to_le_bytes());
+                                c.complete_held(2, 0, &done, 8);
+                            }
+                            if n > 40 {
+                                panic!("LAB-LIVELOCK: pcm_xfer keeps waiting although the device has answered");
+                            }
+                        })));
+                    }
+                    let r = crate::util::catch(|| s.pcm_xfer(0, &[1, 2, 3, 4, 5, 6, 7, 8]));
+                    cosim::install(&co);
+                    tag("sound:pcm_xfer-with-events-pending");
+                    if !matches!(r, Ok(Ok(()))) {
+                        viol("blocking-transfer", format!("pcm_xfer with {} events pending -> {:?}", pending.len(), r));
+                    }
+                }
             }
             // The driver polls until nothing is left, plus once more.
             let polls = pending.len() + 1;
